@@ -60,12 +60,39 @@ pub fn run(_env: &Env, run: &Run) -> (Stats, Coverage) {
         visit(&from_cps(&[c as u32]), st);
         visit(&from_cps(&[0x41, c as u32]), st);
     }));
+    // every ordered pair of characters that have a lowercase mapping (about 1 400^2 labels)
+    {
+        let members: Vec<char> = (0..0x110000u32).filter_map(char::from_u32).filter(|c| !c.to_lowercase().eq(std::iter::once(*c))).collect();
+        let shards: Vec<Stats> = {
+            use rayon::prelude::*;
+            members
+                .par_iter()
+                .map(|a| {
+                    let mut st = Stats::default();
+                    let mut s = String::new();
+                    for b in &members {
+                        s.clear();
+                        s.push(*a);
+                        s.push(*b);
+                        st.states += 1;
+                        st.transitions += 1;
+                        let exp = ref_lower(&s);
+                        check_rule_fn(Prof::Ucm, RuleFn::Case, &s, &exp, false, &mut st);
+                    }
+                    st
+                })
+                .collect()
+        };
+        for x in shards {
+            st.merge(x);
+        }
+    }
     let with_mapping = (0..0x110000u32).filter_map(char::from_u32).filter(|c| !c.to_lowercase().eq(std::iter::once(*c))).count();
     let not_upper = (0..0x110000u32).filter_map(char::from_u32).filter(|c| !c.to_lowercase().eq(std::iter::once(*c)) && !c.is_uppercase()).count();
     st.sample(json!({"input": ["U+01C5"], "expected": "U+01C6 (titlecase letter, no uppercase letter before it)"}));
     st.sample(json!({"input": ["a", "U+0130", "U+03A3"], "expected": "a i U+0307 U+03C3 (full, unconditional mapping)"}));
     let cov = Coverage {
-        rule: format!("every string of length <= {} over 19 symbols (upper, lower, titlecase, Other_Uppercase, multi-character mapping, mappings that grow and that shrink in UTF-8, 1-4 byte, uncased) + pumped runs and ASCII block strings + every scalar value in 19 templates (incl. next to a growing and next to a shrinking mapping, both orders, and in the contexts the conditional SpecialCasing rules look at: around capital sigma, before a combining dot above) and next to each of its 16 other-plane aliases, through case_mapping_rule of UsernameCaseMapped and Nickname; oracle = concatenation of char::to_lowercase of each character (hence position independent), idempotence on the output; non-trivial = a mapped character that is not at index 0, or two mapped characters", n),
+        rule: format!("every string of length <= {} over 19 symbols (upper, lower, titlecase, Other_Uppercase, multi-character mapping, mappings that grow and that shrink in UTF-8, 1-4 byte, uncased) + pumped runs and ASCII block strings + every scalar value in 19 templates (incl. next to a growing and next to a shrinking mapping, both orders, and in the contexts the conditional SpecialCasing rules look at: around capital sigma, before a combining dot above) and next to each of its 16 other-plane aliases, + every ordered pair of the characters that have a lowercase mapping, through case_mapping_rule of UsernameCaseMapped and Nickname; oracle = concatenation of char::to_lowercase of each character (hence position independent), idempotence on the output; non-trivial = a mapped character that is not at index 0, or two mapped characters", n),
         alphabet: json!(sigma.iter().map(|c| format!("U+{:04X}", *c as u32)).collect::<Vec<_>>()),
         bound_completed: format!("length <= {} ({} strings) x 2 profiles; sweep 1,112,064 x 19 templates x 2", n, tree_size(sigma.len(), n)),
         exhaustive: false,
